@@ -53,7 +53,7 @@ def gen_windows(ctx, sd):
     return out, r.distinct
 
 
-def run_scripts(ctx, drv, scripts, tf):
+def run_scripts(ctx, drv, scripts, tf, wire=None):
     """Runs scripts through rpcdrv (restarting after hangs / deaths); returns (violations-by-driver, summary)."""
     sf = ctx.path("scripts.ndjson")
     with open(sf, "w") as f:
@@ -67,7 +67,7 @@ def run_scripts(ctx, drv, scripts, tf):
         part = ctx.path("rpctrace-part.ndjson")
         if os.path.exists(part):
             os.remove(part)
-        rc, out, err = gobuild.run_driver(ctx, drv, ["run", sf, part, str(skip)], timeout=3400)
+        rc, out, err = gobuild.run_driver(ctx, drv, ["run", sf, part, str(skip)], timeout=3400, env={"CAPNP_VERIF_TRACE": wire} if wire else None)
         markers = re.findall(r"^SCRIPT (\d+) (\S+)", err, re.M)
         summ = None
         for ln in out.splitlines():
